@@ -1,6 +1,10 @@
 import Geo.Props.C10
+import Geo.Props.C10b
 #print axioms Geo.T10_mirror2
 #print axioms Geo.T10_mirror_spec
 #print axioms Geo.T10_mirror_involution_2d
 #print axioms Geo.T10_mirror_involution_3d
 #print axioms Geo.T10_is_perpendicular
+#print axioms Geo.T10_base_point_2d
+#print axioms Geo.T10_direction_2d
+#print axioms Geo.T10_base_point_nonzero
